@@ -19,6 +19,7 @@ type RefSpec struct {
 	Doc    []byte
 	Tree   *plan.Tree // nil: ParseApply on the bytes
 	Opt    *plan.Opt  // nil: nil options
+	CostNs int64      // speed of the simulated CPU (C12: the solo run is taken on the same machine as the concurrent one)
 }
 
 func (rs *RefSpec) Key() string {
@@ -40,6 +41,9 @@ func (rs *RefSpec) Key() string {
 			u = *rs.Opt.URL
 		}
 		fmt.Fprintf(h, "|opt|%d|%s|%v|%d", rs.Opt.Flags, u, rs.Opt.Skip, rs.Opt.Algo)
+	}
+	if rs.CostNs != 0 {
+		fmt.Fprintf(h, "|cost|%d", rs.CostNs)
 	}
 	return hex.EncodeToString(h.Sum(nil)[:12])
 }
@@ -65,6 +69,7 @@ func (rs *RefSpec) Plan() *plan.Plan {
 		op.Opt = "o0"
 	}
 	p.Tasks = [][]plan.Op{{op}}
+	p.Schedule.YieldCostNs = rs.CostNs
 	return p
 }
 
@@ -230,6 +235,14 @@ func readerDelayUs(rp *plan.ReaderPlan) int64 {
 
 // expectFor derives what the property allows for one op of a plan.
 func expectFor(p *plan.Plan, op *plan.Op, openSeam bool) Expect {
+	e := expectFor0(p, op, openSeam)
+	if e.Ref != nil && p.Property == "C12" {
+		e.Ref.CostNs = p.Schedule.YieldCostNs
+	}
+	return e
+}
+
+func expectFor0(p *plan.Plan, op *plan.Op, openSeam bool) Expect {
 	var e Expect
 	opt := findOpt(p, op.Opt)
 	switch op.Op {
